@@ -245,7 +245,6 @@ func defaultHooks() map[string]hookFn {
 	}
 
 	// ---- compress/zlib: stub (see DESIGN §2.4) ----
-	h["compress/zlib.NewReader"] = zlibNewReaderStub
 
 	// ---- runtime ----
 	h["runtime.NumCPU"] = func(e *Exec, fr *frame, args []Value) Value { return e.mkInt(4) }
